@@ -263,6 +263,15 @@ func unknownDiscriminator(t *Tape, w []byte, spans []Span) ([]byte, string, bool
 			seg[0] = []byte{'-', '+', ' '}[b.intn(3)]
 		}
 	case 5:
+		if t.Intn(2) == 0 {
+			// near miss of a registered textual key: one digit replaced by another digit (keys that a
+			// later protocol revision might define)
+			pos := t.Intn(len(seg))
+			if seg[pos] >= '0' && seg[pos] <= '9' {
+				seg[pos] = byte('0' + (int(seg[pos]-'0')+1+t.Intn(9))%10)
+				break
+			}
+		}
 		// near miss of a registered numeric key: the registered value with one bit changed
 		seg[t.Intn(len(seg))] ^= 1 << uint(t.Intn(8))
 	case 6:
